@@ -284,6 +284,25 @@ class Check:
                 self.proof_broken("tools/translate_proto.py: the protocol sources no longer have the table shape the "
                                   "translator accepts (%s): gen/ProtoTables.v cannot be regenerated" % e)
                 return False
+        if pid == "C11":
+            import translate_streamparse
+            try:
+                translate_streamparse.regenerate(REPO)
+            except (translate_streamparse.ShapeError, OSError) as e:
+                self.proof_broken("tools/translate_streamparse.py: the stream leader / trailer decoders of "
+                                  "device/src/u3v/protocol/stream.rs, PayloadBuilder of cameleon/src/u3v/stream_handle.rs or "
+                                  "the Payload views of cameleon/src/payload.rs no longer have the shape the translator "
+                                  "accepts (%s): gen/StreamParseSrc.v cannot be regenerated" % e)
+                return False
+        if pid == "C08":
+            import translate_ackparse
+            try:
+                translate_ackparse.regenerate(REPO)
+            except (translate_ackparse.ShapeError, OSError) as e:
+                self.proof_broken("tools/translate_ackparse.py: the acknowledge / event decoders of device/src/u3v/protocol/"
+                                  "{ack,event}.rs (or read_bytes_le of impl/src/bytes_io.rs) no longer have the shape the "
+                                  "translator accepts (%s): gen/AckParseSrc.v cannot be regenerated" % e)
+                return False
         if pid == "C09":
             import translate_serialize
             try:
@@ -343,8 +362,8 @@ class Check:
                 return False
         tr = {"C01": "tools/translate_codec.py (macro arms and match arms of int_from_slice / bytes_from_int / float_from_slice / bytes_from_float, genapi/src/utils.rs -> gen/CodecSrc.v) and lib/RustBytes.v (from_xx_bytes / to_xx_bytes / copy_from_slice)",
               "C02": "tools/translate_bitmask.py (typed mini-Rust translator of `impl BitMask`, genapi/src/masked_int_reg.rs -> gen/BitMaskSrc.v) and lib/RustInt.v (debug-build semantics of the integer operations)",
-              "C08": "tools/translate_proto.py (protocol tables -> gen/ProtoTables.v)", "C09": "tools/translate_proto.py (protocol tables -> gen/ProtoTables.v) and tools/translate_serialize.py (typed mini-Rust translator of the structs, the trait CommandScd and its four implementations, the constructors, the length functions and every serializer of device/src/u3v/protocol/cmd.rs -> gen/SerializeSrc.v; serializers become lists of write operations interpreted by model/SerOps.v; shape of write_bytes_le in impl/src/bytes_io.rs asserted) and lib/RustInt.v (debug-build semantics of the integer operations)",
-              "C11": "tools/translate_proto.py (protocol tables -> gen/ProtoTables.v)",
+              "C08": "tools/translate_proto.py (protocol tables -> gen/ProtoTables.v) and tools/translate_ackparse.py (typed mini-Rust translator of AckPacket::parse / AckCcd::parse / Status::parse / ScdKind::parse, the five ParseScd views behind scd_as, EventPacket::parse / EventCcd::parse / EventScd::parse with its loop and read_and_seek, device/src/u3v/protocol/{ack,event}.rs -> gen/AckParseSrc.v; cursor reads, seeks and slicing interpreted by model/CurOps.v; `while` loops become fuelled Fixpoints; shape of read_bytes_le in impl/src/bytes_io.rs and of u3v::Error asserted) and lib/RustInt.v (debug-build semantics of the integer operations)", "C09": "tools/translate_proto.py (protocol tables -> gen/ProtoTables.v) and tools/translate_serialize.py (typed mini-Rust translator of the structs, the trait CommandScd and its four implementations, the constructors, the length functions and every serializer of device/src/u3v/protocol/cmd.rs -> gen/SerializeSrc.v; serializers become lists of write operations interpreted by model/SerOps.v; shape of write_bytes_le in impl/src/bytes_io.rs asserted) and lib/RustInt.v (debug-build semantics of the integer operations)",
+              "C11": "tools/translate_proto.py (protocol tables -> gen/ProtoTables.v) and tools/translate_streamparse.py (typed mini-Rust translator of Leader::parse / Trailer::parse, the specific leaders and trailers, the TryFrom<u16> tables and the getters of device/src/u3v/protocol/stream.rs, of every method of PayloadBuilder in cameleon/src/u3v/stream_handle.rs and of Payload::image_info / image / payload / into_vec in cameleon/src/payload.rs -> gen/StreamParseSrc.v; cursor reads, slicing and the chunk-walk loop are interpreted by model/RdOps.v; shape of read_bytes_le in impl/src/bytes_io.rs, of `#[from] std::io::Error` and of the `use` lines asserted) and lib/RustInt.v (debug-build semantics of the integer operations)",
               "C13": "tools/translate_decoders.py + tools/minirust.py (typed mini-Rust translator of the bit-level decoders, the bit macros, register_address and ParseBytes for BusSpeed of cameleon/src/u3v/register_map.rs -> gen/DecodersSrc.v) and lib/RustInt.v (debug-build semantics of the integer operations)",
               "C14": "tools/translate_decoders.py + tools/minirust.py (typed mini-Rust translator of genicam_file_version / file_type / compression_type of cameleon/src/u3v/register_map.rs -> gen/DecodersSrc.v) and lib/RustInt.v (debug-build semantics of the integer operations)",
               "C10": "tools/translate_chunks.py (symbolic executor of ReadMemChunks::next / WriteMemChunks::next etc. -> gen/ReadChunks.v) and lib/RustInt.v",
